@@ -297,6 +297,12 @@ inductive Ev where
   | delegate
   /-- the body branches on `inplace` explicitly -/
   | branch
+  /-- `return <name>` where the name still holds the INPUT object, on a path where `inplace` may be false (an early
+  "nothing to do" return placed before the copy guard): the caller gets the input back instead of a fresh object -/
+  | retIn
+  /-- a nested call `f(x, …, inplace=inplace)` whose result is discarded: without `inplace` the callee works on a
+  second, throw-away copy and its effect is lost; with `inplace` it is applied to `x` -/
+  | lostDelegate
   deriving DecidableEq, Repr
 
 /-- no `write` before the first `guard` -/
@@ -306,23 +312,28 @@ def noWriteBeforeGuard : List Ev → Bool
   | .write :: _ => false
   | _ :: t => noWriteBeforeGuard t
 
-/-- A trace is fine when nothing is written before the guard, the original is never written afterwards, and
-the `inplace` parameter is honoured by a guard, a delegation or an explicit branch. -/
+/-- A trace is fine when nothing is written before the guard, the original is never written afterwards, the
+input object is never handed back where a fresh one is due, no delegated effect is thrown away, and the `inplace`
+parameter is honoured by a guard, a delegation or an explicit branch. -/
 def okTrace (t : List Ev) : Bool :=
-  noWriteBeforeGuard t && !t.contains .writeIn &&
+  noWriteBeforeGuard t && !t.contains .writeIn && !t.contains .retIn && !t.contains .lostDelegate &&
     (t.contains .guard || t.contains .delegate || t.contains .branch)
 
 /-- a write that always changes the node table's content -/
 def bump : Abs → Int := fun a => a.nodes.getD 0 + 1
 
 /-- One event of a trace, run in the heap model.  State = (store, object `x` currently names); `x0` is the
-input.  A delegation is a no-op here: the callee has its own row in the table. -/
+input.  A delegation is a no-op here: the callee has its own row in the table.  `retIn` re-binds the name to the input
+(the value that is returned); `lostDelegate` is the callee's own copy-then-operate `call` run on what `x` names, with
+the object it returns dropped. -/
 def runEv (f : Abs → Int) (x0 : Ref) (inplace : Bool) (st : Store × Ref) : Ev → Store × Ref
   | .guard => if inplace then st else copyObj st.1 st.2
   | .write => (step st.1 st.2 (.wr .nodes f), st.2)
   | .writeIn => (step st.1 x0 (.wr .nodes f), st.2)
   | .delegate => st
   | .branch => st
+  | .retIn => (st.1, x0)
+  | .lostDelegate => ((call [.wr .nodes f] st.1 st.2 inplace).1, st.2)
 
 def runTrace (f : Abs → Int) (t : List Ev) (s : Store) (x : Ref) (inplace : Bool) : Store × Ref :=
   t.foldl (runEv f x inplace) (s, x)
